@@ -218,6 +218,14 @@ class Cfg:
             if vals and not is_other:
                 names = [self.variant_name(ty, v) or str(v) for v in vals]
                 atoms.append(("variant", subj, tuple(names)))
+                if names == ["Some"] and subj[0] == "call" and subj[4] == "filter" and len(subj[2]) == 2 and "ption" in (subj[1] or "") \
+                        and subj[2][1][0] == "agg" and subj[2][1][1] == "closure":
+                    # opt.filter(pred) is Some: opt is Some and pred(payload) holds
+                    o = subj[2][0]
+                    atoms.append(("variant", o, ("Some",)))
+                    body = closure_apply(self.prog, subj[2][1], [("field", ("downcast", o, "Some"), "0", "")])
+                    if body is not None:
+                        atoms.extend(a for a in bool_atoms(expand_predicates(self.prog, body), True) if a not in atoms)
             elif is_other and not vals:
                 excl = [self.variant_name(ty, v) or str(v) for v in all_vals]
                 # complement within the enum if known
